@@ -531,13 +531,13 @@ Section Sim2.
           inversion Jcr as [| ? ? Hmok _]; subst.
           destruct (rt_deliver (wr w) m) as [r' |] eqn:D; [| discriminate].
           inversion St; subst w' o; clear St.
-          destruct Hm as [| | ns T' Hst HTw]; cbn [rt_deliver] in D; cbn [fst snd] in *.
+          destruct Hm as [| | ns T' ans Hst HTw]; cbn [rt_deliver] in D; cbn [fst snd] in *.
           -- inversion D; subst r'. split; [reflexivity |].
              constructor; cbn [wn wr rstorage a_rtab a_v7]; assumption.
           -- inversion D; subst r'. split; [reflexivity |].
              constructor; cbn [wn wr rstorage a_rtab a_v7]; assumption.
           -- split; [reflexivity |]. destruct Hmok as [Wns Zns].
-             destruct (pq_pop (pending (wr w))) as [p' |]; [| discriminate].
+             destruct (if ans =? -1 then Some (pending (wr w)) else pq_pop (pending (wr w))) as [p' |]; [| discriminate].
              constructor; cbn [wn wr a_rtab a_v7]; try assumption.
              ++ destruct (rstorage (wr w)) as [old |] eqn:Es.
                 ** destruct (cloneValues ns old) as [c |] eqn:C; [| discriminate].
